@@ -541,7 +541,10 @@ impl Local {
     #[inline]
     pub(crate) fn acquire_handle(&self) {
         let handle_count = self.handle_count.get();
-        debug_assert!(handle_count >= 1);
+        // A guard alone also keeps the `Local` alive: `Guard::reactivate*` get here with no
+        // handle left when the guard was created through the temporary registration that
+        // `cs()` falls back to during thread-local destruction.
+        debug_assert!(handle_count >= 1 || self.guard_count.get() >= 1);
         self.handle_count.set(handle_count + 1);
     }
 
